@@ -129,8 +129,14 @@ CycRefChoices(n) ==
 ChainG(n) == [d \in 2..n |-> [spec |-> IF d < n /\ d % 2 = 0 THEN d + 1 ELSE 0, orig |-> IF d < n /\ d % 2 = 1 THEN d + 1 ELSE 0,
                               first |-> "spec", m |-> IF d = n THEN 2 ELSE IF d = (3 * n) \div 4 THEN 3 ELSE 1]]
 
+\* "navchain": a compile unit that imports a partial unit that imports a partial unit ... N / 2 units deep,
+\* with a variable in the last one (import chains of any depth)
+NavChainP(n) == [d \in 1..n |-> IF d % 2 = 1 THEN 0 ELSE d - 1]
+NavChainF(n) == [d \in {x \in 2..n : x % 2 = 0} |-> IF d < n THEN d + 1 ELSE 0]
+
 ForestSet ==
-    CASE Family = "chain" -> {AttrForest(N, ChainG(N))}
+    CASE Family = "navchain" -> {NavForest(NavChainP(N), N, NavChainF(N))}
+      [] Family = "chain" -> {AttrForest(N, ChainG(N))}
       [] Family = "cyc" -> {AttrForest(N, g) : g \in CycRefChoices(N)}
       [] Family = "altnav" -> UNION {{AltNavForest(p, N, f) : f \in ImpChoices(p, N)} : p \in {q \in ParVecs(N) : Cardinality(RangeOf(RootsOf(q, N))) \in 2..3}}
       [] Family = "altattr" -> UNION {{AltAttrForest(N, g, s) : g \in AltRefChoices(N, s)} : s \in 2..(N - 2)}
